@@ -86,7 +86,9 @@ class Registry:
             return
         ex.oblige(st, "emit.%s#%d.matches_spec" % (kind, k), z3.And(z3.Length(st.todo) > 0, st.todo[0] == ev), kind="trace",
                   meta={"event": kind})
-        st.todo = z3.SubSeq(st.todo, 1, z3.Length(st.todo) - 1)
+        rest = fresh("todo", SeqEv)
+        st.assume(st.todo == z3.Concat(z3.Unit(ev), rest))
+        st.todo = rest
 
     def oracle(self, ex, st, kind, a=NONE, b=NONE, hint=None):
         """A call into user code: event, then either a value or any exception. Heap untouched (A-FRAME)."""
